@@ -157,8 +157,12 @@ NoFalseNegative == Meets => Verdict
 \* the converse away from the poles: the test is exact on the corner hull (not needed by C07; documents tightness
 \* and makes the verdict a function of the geometry alone)
 NoFalsePositive == (Verdict /\ ~PoleAccept(cs)) => Meets
-\* the verdict depends on the geometry only, not on the branch a longitude is given on
-BranchFree == [][ph = "case" => Verdict' = Verdict]_vars
+\* the verdict depends on the geometry only, not on the branch a longitude or the box is given on: every
+\* Rebranch / TurnBox neighbour of a state has the same verdict (stated on the state so that TLC checks it as an
+\* invariant; it is the action property [][Verdict' = Verdict]_vars of the two geometry-preserving steps)
+BranchFree ==
+    /\ \A i \in 1..4 : Accept([cs EXCEPT ![i] = <<Turn(cs[i][1]), cs[i][2]>>], box) = Verdict
+    /\ Accept(cs, [box EXCEPT !.lonmin = Turn(@), !.lonmax = Turn(box.lonmin) + (box.lonmax - box.lonmin)]) = Verdict
 \* the sorting network sorts; the unwrap loop ends sorted with exactly the minimal arc
 SortOK == LET s == Sort4(Lons(cs)) IN \A i \in 1..3 : s[i] <= s[i + 1]
 UnwrapOK == LET s == Unwrap(Sort4(Lons(cs)))
